@@ -11,6 +11,12 @@ a selector is `~` (None) or the list of accepted names (`-` = accepts nothing).
 * `ser DICT` → hex of the serialised tag file
 * `deser HEX` → `ok DICT` | `E:ValueError` | `unsupported`
 * `utf8 HEX` → `T`/`F`
+* `gitmerge STRICT OW SEL COMMITS ABSENT REFS SRC` (COMMITS / ABSENT: lists of
+  revision ids the destination git repository has / well-formed git revision ids
+  it does not have; every other value is a ghost) →
+  `READABLE|RAWREFS|UPDATES|CONFLICTS`
+* `gitset STRICT COMMITS ABSENT REFS TO` → `READABLE|RAWREFS` after `_set_tag_dict(TO)`
+* `g2g OW SEL COMMITS REFS SRC` (git → local git) → `READABLE|RAWREFS|UPDATES|CONFLICTS`
 -/
 namespace BreezyVerif.C24
 
@@ -46,6 +52,12 @@ def pSel (s : String) : Option (Option (Bytes → Bool)) :=
     let names ← (s.splitOn ",").mapM pBytes
     pure (some fun n => names.contains n)
 
+def pBytesList (s : String) : Option (List Bytes) :=
+  if s == "-" then some [] else (s.splitOn ",").mapM pBytes
+
+def mkCls (commits absent : List Bytes) (v : Bytes) : RevClass :=
+  if commits.contains v then .commit else if absent.contains v then .absent else .ghost
+
 def sortStrings (l : List String) : List String := l.mergeSort (fun a b => a ≤ b)
 
 def handle : List String → String
@@ -80,6 +92,31 @@ def handle : List String → String
     match pBytes h with
     | some b => showBool (validUTF8 b)
     | none => "bad-op"
+  | ["gitmerge", strict, ow, sel, commits, absent, refs, src] =>
+    match parseBool strict, parseBool ow, pSel sel, pBytesList commits, pBytesList absent,
+        pDict refs, pDict src with
+    | some strict, some ow, some sel, some commits, some absent, some refs, some src =>
+      let cls := mkCls commits absent
+      let r := gitMergeTo strict cls refs src ow sel
+      sDict (gitRead cls r.1) ++ "|" ++ sDict r.1 ++ "|" ++ sDict r.2.1 ++ "|"
+        ++ sList (sConflicts r.2.2)
+    | _, _, _, _, _, _, _ => "bad-op"
+  | ["gitset", strict, commits, absent, refs, to] =>
+    match parseBool strict, pBytesList commits, pBytesList absent, pDict refs, pDict to with
+    | some strict, some commits, some absent, some refs, some to =>
+      let cls := mkCls commits absent
+      let r := gitSetTagDict strict cls refs to
+      sDict (gitRead cls r) ++ "|" ++ sDict r
+    | _, _, _, _, _ => "bad-op"
+  | ["g2g", ow, sel, commits, refs, src] =>
+    match parseBool ow, pSel sel, pBytesList commits, pDict refs, pDict src with
+    | some ow, some sel, some commits, some refs, some src =>
+      let cls := mkCls commits []
+      let cls' : Bytes → RevClass := fun v => if (cls v).isCommit then .commit else .absent
+      let r := gitToGit cls' refs src ow sel
+      sDict (gitRead cls' r.refs) ++ "|" ++ sDict r.refs ++ "|" ++ sDict r.updates ++ "|"
+        ++ sList (sConflicts r.conflicts)
+    | _, _, _, _, _ => "bad-op"
   | _ => "bad-op"
 
 end BreezyVerif.C24
